@@ -619,6 +619,10 @@ pub fn fuzz_duration_from_seconds(v: f64) {
     }
 }
 
+#[cfg(pendulum_project_ntpd_rs_verif)]
+#[path = "/verif/hooks/ntp_proto_time.rs"]
+pub mod verif_hook;
+
 #[cfg(test)]
 mod tests {
     use super::*;
